@@ -338,21 +338,24 @@ impl<const N: usize> PublicKey<N> {
 
         // parse h
         let bit_buffer = BitVec::from_bytes(&byte_array[1..]);
-        let h = Polynomial::new(
-            bit_buffer
-                .iter()
-                .chunks(14)
-                .into_iter()
-                .map(|ch| {
-                    let mut int = 0;
-                    for b in ch {
-                        int = (int << 1) | (b as i16);
-                    }
-                    int
-                })
-                .map(Felt::new)
-                .collect_vec(),
-        );
+        let integers = bit_buffer
+            .iter()
+            .chunks(14)
+            .into_iter()
+            .map(|ch| {
+                let mut int = 0;
+                for b in ch {
+                    int = (int << 1) | (b as i16);
+                }
+                int
+            })
+            .collect_vec();
+
+        // coefficients must be canonical representatives
+        if integers.iter().any(|&int| int >= Q as i16) {
+            return Err(FalconDeserializationError::BadFieldElementEncoding);
+        }
+        let h = Polynomial::new(integers.into_iter().map(Felt::new).collect_vec());
 
         Ok(PublicKey { h })
     }
